@@ -521,12 +521,55 @@ func c18Equal(c *core.Ctx, p c18Params) {
 		pool = append(pool, v)
 		texts = append(texts, t)
 	}
+	// near neighbours: the same text with one letter in the other case, one digit or
+	// letter changed, or a character appended inside a string - different JSON values
+	// that a sloppy comparison would identify
+	neighbour := map[int][]int{}
+	base := len(pool)
+	for i := 0; i < base; i++ {
+		t := []byte(texts[i])
+		var cand []int
+		for k, ch := range t {
+			if (ch|32) >= 'a' && (ch|32) <= 'z' || ch >= '0' && ch <= '9' {
+				cand = append(cand, k)
+			}
+		}
+		if len(cand) == 0 {
+			continue
+		}
+		for try := 0; try < 2; try++ {
+			m := append([]byte{}, t...)
+			k := cand[r.Intn(len(cand))]
+			switch {
+			case (m[k]|32) >= 'a' && (m[k]|32) <= 'z' && try == 0:
+				m[k] ^= 32 // other case
+			case m[k] >= '0' && m[k] <= '8':
+				m[k]++
+			default:
+				m[k] = 'q'
+			}
+			v, err := c18ParseValue(string(m))
+			if err != nil {
+				continue
+			}
+			neighbour[i] = append(neighbour[i], len(pool))
+			pool = append(pool, v)
+			texts = append(texts, string(m))
+		}
+	}
 	pool = append(pool, store.DeleteValue, store.Value{})
 	texts = append(texts, "<DeleteValue>", "<zero>")
 	for i := 0; i < p.N; i++ {
 		a, b, d := r.Intn(len(pool)), r.Intn(len(pool)), r.Intn(len(pool))
-		if r.Intn(3) == 0 {
+		switch r.Intn(4) {
+		case 0:
 			b = a
+		case 1:
+			if ns := neighbour[a%base]; len(ns) > 0 {
+				a = a % base
+				b = ns[r.Intn(len(ns))]
+				c.Obs("near_neighbour_pairs", 1)
+			}
 		}
 		A, B, D := pool[a], pool[b], pool[d]
 		c.Eval(1)
